@@ -184,3 +184,8 @@ mut("rwlock_scoped_read_exclusive", "src/rwlock/rwlock.rs",
     "\t\t\tself.raw_read();\n\n\t\t\t// safety: the data has been locked\n\t\t\tlet r = handle_unwind(\n\t\t\t\t|| f(self.data.get().as_ref().unwrap_unchecked()),\n\t\t\t\t|| self.raw_unlock_read(),\n\t\t\t);\n\n\t\t\t// ensures the key is held long enough\n\t\t\tdrop(key);\n\n\t\t\t// safety: the mutex is still locked\n\t\t\tself.raw_unlock_read();",
     "\t\t\tself.raw_write();\n\n\t\t\t// safety: the data has been locked\n\t\t\tlet r = handle_unwind(\n\t\t\t\t|| f(self.data.get().as_ref().unwrap_unchecked()),\n\t\t\t\t|| self.raw_unlock_write(),\n\t\t\t);\n\n\t\t\t// ensures the key is held long enough\n\t\t\tdrop(key);\n\n\t\t\t// safety: the mutex is still locked\n\t\t\tself.raw_unlock_write();",
     [("C13", "X3"), ("C02", "X3")])
+
+# ---- found with mutgen.py: mutants inside the (already defective) retry handlers were hidden behind coarse known-finding keys --
+mut("retry_write_counter_not_bumped", "src/collection/retry.rs", "\t\t\t\t\t\tif lock.raw_try_write() {\n\t\t\t\t\t\t\tlocked.set(locked.get() + 1);",
+    "\t\t\t\t\t\tif lock.raw_try_write() {\n\t\t\t\t\t\t\tlocked.set(locked.get() + 0);", [("C12", "Q4"), ("C05", "Q4")],
+    "the unwind handler releases a shorter prefix: more locks leak after a panic")
